@@ -24,6 +24,9 @@ def make_ws(base, algo):
         {"name": "d", "command": "rm -rf dd; mkdir -p dd/sub; { echo x; cat a.out; } > dd/x; { echo y; cat b.out; } > dd/sub/y; cp dd/x dd/copy; : > dd/empty",
          "dependencies": [":a", ":b"], "outputs": ["dir::dd"]},
         {"name": "e", "command": "find dd -type f | sort | xargs cat | sha256sum > e.out", "dependencies": [":d"], "outputs": ["e.out"]},
+        # two independent targets whose outputs have the same bytes: their blobs are one digest written by two workers at once
+        {"name": "p", "command": "echo same-content > p.out", "outputs": ["p.out"]},
+        {"name": "q", "command": "echo same-content > q.out", "outputs": ["q.out"]},
     ]
     json.dump({"targets": targets}, open(os.path.join(ws, "pkg", "BUILD.json"), "w"))
     open(os.path.join(ws, "pkg", "a.in"), "w").write("alpha\n")
@@ -31,7 +34,7 @@ def make_ws(base, algo):
     return ws
 
 
-OUTS = ["a.out", "b.out", "dd", "e.out"]
+OUTS = ["a.out", "b.out", "dd", "e.out", "p.out", "q.out"]
 
 
 def outputs(ws):
@@ -53,8 +56,8 @@ def cache_dir(base):
 
 def run_traced(grog, ws, base, inject=None, log="st.log"):
     cmd = ["strace", "-f", "-b", "execve", "-o", os.path.join(base, log), "-e", "trace=" + TRACED]
-    if inject:
-        cmd += ["-e", inject]
+    for inj in ([inject] if isinstance(inject, str) else (inject or [])):
+        cmd += ["-e", inj]
     cmd += [grog, "build", "//..."]
     try:
         p = subprocess.run(cmd, cwd=ws, env=env_of(base), capture_output=True, text=True, timeout=120)
@@ -118,6 +121,12 @@ def one_case(grog, hbin, tmp, case, clean):
             inj = f"inject={INJECT}:signal=SIGKILL:when={k}"
         elif mode.startswith("kill@"):
             inj = f"inject={mode[5:]}:signal=SIGKILL:when={k}"
+        elif mode in ("slow-open+eio-rename", "slow-open+kill-at-rename"):
+            # one writer of a blob is held in the creation of its temp file (a slow disk) while other workers go on, then its
+            # rename fails or the process is killed there: whatever the other workers published must not depend on that blob
+            K, J = divmod(k, 10)
+            inj = [f"inject=openat:delay_exit=350000:when={K}",
+                   f"inject=renameat:error=EIO:when={J}" if mode.endswith("eio-rename") else f"inject=renameat:signal=SIGKILL:when={J}"]
         elif mode == "eio-write":
             inj = f"inject=write:error=EIO:when={k}+3"
         elif mode == "eio-rename":
@@ -254,6 +263,14 @@ def run(chk, tmp, replay=None):
             for warm in ((False, True) if not quick else (k % 2 == 0,)):
                 cid += 1
                 cases.append((cid, algo, warm, "kill@" + sc, k))
+        opens = [k for sc, k in targeted[algo] if sc == "openat"]
+        if quick:
+            opens = sorted(rng.sample(opens, min(len(opens), 8)))
+        for K in opens:
+            for J in (1, 2, 3):
+                for mode in ("slow-open+eio-rename", "slow-open+kill-at-rename"):
+                    cid += 1
+                    cases.append((cid, algo, False, mode, K * 10 + J))
         for mode, n in (("eio-write", 6 if quick else 30), ("eio-rename", 6 if quick else 14), ("enospc-open", 4 if quick else 20)):
             for k in range(1, n + 1):
                 cid += 1
